@@ -230,7 +230,12 @@ def refreshed_operators(rep, rng, mesh, mi):
                 pass
             if getattr(mo_, "mu_laplacian", None) is None:
                 continue
-            dL = abs(sp.csr_matrix(mo_.mu_laplacian) - sp.csr_matrix(ref_L))
+            # (the potential is defined up to a constant: one row of the system matrix may be a gauge-fixing identity row - every
+            # other row must be the row of the mesh Laplacian)
+            Ms, Lr = sp.csr_matrix(mo_.mu_laplacian), sp.csr_matrix(ref_L)
+            ident = [r_ for r_ in range(Ms.shape[0]) if Ms[[r_]].nnz == 1 and Ms[r_, r_] == 1.0]
+            keep = np.setdiff1d(np.arange(Ms.shape[0]), ident[:1])
+            dL = abs(Ms[keep] - Lr[keep])
             if dL.max() > 1e-12 * abs(ref_L).max():
                 rep.violation(f"the scalar Laplacian held by MeshOperators for sparse_solver={solver_.value!r} is not the Laplacian of the mesh "
                               "(divergence of the gradient)", {"mesh": mi, "max_abs_diff": float(dL.max())})
